@@ -693,6 +693,23 @@ func concFlush(maxpend int, flushop bool, stage int, cancel bool) string {
 	return s.finish(fmt.Sprintf("flush%d", stage), flushed)
 }
 
+// kind "flushcycle": a Tflush naming its own tag, or two Tflush naming each other
+func concFlushCycle(maxpend int, mutual bool) string {
+	s := newConcSession(maxpend, false)
+	s.setup()
+	if mutual {
+		s.send(flushReq(210, 211), flushReq(211, 210))
+	} else {
+		s.send(flushReq(210, 210))
+	}
+	s.waitReplies(3, 300*time.Millisecond)
+	k := "flushself"
+	if mutual {
+		k = "flushmutual"
+	}
+	return s.finish(k, nil)
+}
+
 // kind "group": requests deliberately sharing one tag, mixed with others
 func concGroup(maxpend int, n int) string {
 	s := newConcSession(maxpend, false)
@@ -801,6 +818,10 @@ func modeSrvconc(tier string, args []string) {
 			for _, n := range []int{2, 3, 5, 8} {
 				n := n
 				jobs = append(jobs, func() string { return concGroup(mp, n) })
+			}
+			if r == 0 {
+				jobs = append(jobs, func() string { return concFlushCycle(mp, false) })
+				jobs = append(jobs, func() string { return concFlushCycle(mp, true) })
 			}
 			for k := 0; k <= 4; k++ {
 				k := k
